@@ -401,7 +401,7 @@ class SrcEdit:
             if (del_else_and_fin
                 and (
                     (is_finally := field == 'finalbody')  # remove 'else:' or 'finally:' (but not 'elif ...:' as that lives in first cut statement)
-                    or (field == 'orelse' and not lines[ffirst.bln].startswith('elif', ffirst.bcol))
+                    or (field == 'orelse' and not ffirst.is_elif())  # check the node, source of another statement can also start with these letters 'elif_count = 1'
             )):
                 del_ln, del_col, del_end_ln, del_end_col = del_loc
 
